@@ -152,6 +152,125 @@ def condIntegral (a b : Expr) : Bool := !a.isFloatKind && !b.isFloatKind
 def condKind (a b : Expr) : PK := if a.isFloatKind || b.isFloatKind then .float else .int
 def condWidth (a b : Expr) : Nat := max a.width b.width
 
+/-! ### C++ meaning of an operand type the translator's own tables do not have: `std::size_t`
+
+The model only ever declares `int` / `float` / `double` / `bool`, and `evalC` gives those their C++ meaning.  The
+oracle, however, reads the IMPLEMENTATION's text, and an implementation may take an integer count from an
+expression whose C++ type is *unsigned* (`container->size()` is a `std::size_t`) while declaring it `int`.  The
+declared type does not change what the compiler does: the usual arithmetic conversions turn every integral
+operation with a `std::size_t` operand into arithmetic modulo 2^64 (`3 - 5` is 18446744073709551614, `-1` compared
+with a count is 2^64 − 1), and only a conversion back to `int` brings the value into the signed range again.
+`evalX` is `evalC` extended by that operand type: `uns i` says which slots hold unsigned operands.  With no
+unsigned operand it *is* `evalC` (theorem `evalX_conservative`). -/
+
+/-- a C++ value: one of the model's four types, or a `std::size_t` (64 bit, `n < 2^64`) -/
+inductive XV (N : Num)
+  | cv (v : CV N)
+  | uns (n : Nat)
+
+def two64 : Nat := 18446744073709551616
+
+/-- conversion of an integer to `std::size_t`: modulo 2^64 -/
+def wrapU (i : Int) : Nat := (i % (two64 : Int)).toNat
+
+/-- conversion of a `std::size_t` to a 32 bit `int` (modular: implementation-defined before C++20, what every
+supported compiler does, required since) -/
+def wrapI32 (n : Nat) : Int := (((n + 2147483648) % 4294967296 : Nat) : Int) - 2147483648
+
+def XV.isFloating : XV N → Bool
+  | .cv v => v.isFloating
+  | .uns _ => false
+
+/-- the number an `XV` denotes, as a value of the model's types (an unsigned number as an integer: used where the
+other operand is floating, or as argument of `std::pow`, both of which convert it to the floating type exactly as
+they convert an `int` of that value) -/
+def XV.asCV : XV N → CV N
+  | .cv v => v
+  | .uns n => .int n
+
+/-- an integral operand converted to `std::size_t` -/
+def XV.toU : XV N → Nat
+  | .uns n => n
+  | .cv v => wrapU v.toI
+
+def XV.truthy : XV N → Bool
+  | .cv v => v.truthy
+  | .uns n => n != 0
+
+/-- `static_cast<t>(v)` / conversion on assignment to a variable or column declared `t` -/
+def xConvert (t : CT) : XV N → CV N
+  | .cv v => convert t v
+  | .uns n =>
+    match t with
+    | .int => .int (wrapI32 n)
+    | _ => convert t (.int n)
+
+/-- binary operator with at least one `std::size_t` operand and no floating one: computed in `std::size_t` -/
+def uBin (op : String) (x y : Nat) : Option (XV N) :=
+  if op == "+" then some (.uns ((x + y) % two64))
+  else if op == "-" then some (.uns ((x + two64 - y) % two64))
+  else if op == "*" then some (.uns ((x * y) % two64))
+  else if op == "/" then (if y = 0 then none else some (.uns (x / y)))
+  else if op == "%" then (if y = 0 then none else some (.uns (x % y)))
+  else if op == "<" then some (.cv (.bool (decide (x < y))))
+  else if op == "<=" then some (.cv (.bool (decide (x ≤ y))))
+  else if op == ">" then some (.cv (.bool (decide (y < x))))
+  else if op == ">=" then some (.cv (.bool (decide (y ≤ x))))
+  else if op == "==" then some (.cv (.bool (decide (x = y))))
+  else if op == "!=" then some (.cv (.bool (decide (x ≠ y))))
+  else none
+
+def xBin (op : String) (a b : XV N) : Option (XV N) :=
+  match a, b with
+  | .cv x, .cv y => (cBin op x y).map .cv
+  | _, _ =>
+    if a.isFloating || b.isFloating then (cBin op a.asCV b.asCV).map .cv
+    else uBin op a.toU b.toU
+
+def xUn (op : String) (a : XV N) : Option (XV N) :=
+  match a with
+  | .cv x => (cUn op x).map .cv
+  | .uns n =>
+    if op == "+" then some (.uns n)
+    else if op == "-" then some (.uns ((two64 - n) % two64))
+    else if op == "!" then some (.cv (.bool (n == 0)))
+    else none
+
+/-- `evalC` with unsigned operands: the slots `uns` hold `std::size_t` values -/
+def evalX (uns : Nat → Bool) (env : Env N) : CE → Option (XV N)
+  | .leaf t _ i => if uns i then some (.uns (wrapU (env i).i)) else some (.cv (leafVal t (env i)))
+  | .ilit n => some (.cv (.int n))
+  | .blit b => some (.cv (.bool b))
+  | .bin op l r =>
+    match evalX uns env l, evalX uns env r with
+    | some a, some b => xBin op a b
+    | _, _ => none
+  | .cast t e =>
+    match evalX uns env e with
+    | some a => some (.cv (xConvert t a))
+    | none => none
+  | .pow l r =>
+    match evalX uns env l, evalX uns env r with
+    | some a, some b => some (.cv (cPow a.asCV b.asCV))
+    | _, _ => none
+  | .un op e =>
+    match evalX uns env e with
+    | some a => xUn op a
+    | none => none
+
+/-- what a plain column declared `ty` holds after `col = e;` -/
+def storeX (uns : Nat → Bool) (env : Env N) (ty : CT) (e : CE) : Option (CV N) :=
+  (evalX uns env e).map (xConvert ty)
+
+/-- `evalCondC` with unsigned operands -/
+def evalCondX (uns : Nat → Bool) (env : Env N) (o : CondOut) : Option (CV N) :=
+  match evalX uns env o.test.ce with
+  | none => none
+  | some t =>
+    match evalX uns env (if t.truthy then o.thenRhs else o.elseRhs) with
+    | none => none
+    | some v => some (xConvert o.result.ty v)
+
 /-! ### the operand kinds of the property -/
 
 inductive Kind | intLit | intCount | float | double | bool
